@@ -132,6 +132,99 @@ type zvars struct {
 	tooBig  bool
 	// remainder facts: len variable of s[lo:] -> (len variable of s, variable of lo, offset of lo)
 	rem map[int][3]int64
+	// settled locals: an integer local whose address is only handed to callees
+	// that neither keep it nor pass it on; loads that every writer dominates read
+	// one value per execution of the Alloc (see settledInfo)
+	settled map[*ssa.Alloc]*settledInfo
+}
+
+type settledInfo struct {
+	ok      bool
+	writers []ssa.Instruction
+}
+
+// paramNoEscape: the callee only loads and stores through its idx-th parameter.
+func paramNoEscape(fn *ssa.Function, idx int) bool {
+	if fn == nil || fn.Blocks == nil || idx >= len(fn.Params) {
+		return false
+	}
+	prm := fn.Params[idx]
+	for _, r := range *prm.Referrers() {
+		switch x := r.(type) {
+		case *ssa.UnOp:
+			if x.Op != token.MUL {
+				return false
+			}
+		case *ssa.Store:
+			if x.Addr != ssa.Value(prm) || x.Val == ssa.Value(prm) {
+				return false
+			}
+		case *ssa.DebugRef:
+		default:
+			return false
+		}
+	}
+	return true
+}
+
+func (zv *zvars) settledFor(al *ssa.Alloc) *settledInfo {
+	if zv.settled == nil {
+		zv.settled = map[*ssa.Alloc]*settledInfo{}
+	}
+	if si, ok := zv.settled[al]; ok {
+		return si
+	}
+	si := &settledInfo{ok: true}
+	zv.settled[al] = si
+	if !isIntType(Deref(al.Type())) || al.Referrers() == nil {
+		si.ok = false
+		return si
+	}
+	for _, r := range *al.Referrers() {
+		switch x := r.(type) {
+		case *ssa.UnOp:
+			if x.Op != token.MUL {
+				si.ok = false
+			}
+		case *ssa.DebugRef:
+		case *ssa.Store:
+			if x.Addr != ssa.Value(al) || x.Val == ssa.Value(al) {
+				si.ok = false
+			}
+			si.writers = append(si.writers, x)
+		case *ssa.Call:
+			callee := x.Call.StaticCallee()
+			if callee == nil {
+				si.ok = false
+				break
+			}
+			for i, arg := range x.Call.Args {
+				if arg == ssa.Value(al) && !paramNoEscape(callee, i) {
+					si.ok = false
+				}
+			}
+			si.writers = append(si.writers, x)
+		default:
+			si.ok = false
+		}
+	}
+	return si
+}
+
+// instrBefore: a executes before b on every path that reaches b.
+func instrBefore(a, b ssa.Instruction) bool {
+	if a.Block() == b.Block() {
+		for _, in := range a.Block().Instrs {
+			if in == a {
+				return true
+			}
+			if in == b {
+				return false
+			}
+		}
+		return false
+	}
+	return a.Block().Dominates(b.Block())
 }
 
 const zMaxVars = 420
@@ -222,6 +315,11 @@ func arrayLen(t types.Type) (int64, bool) {
 }
 
 // typeRange returns the value range of an integer type (ok=false: unbounded for our purposes).
+// IntBits is the width of int / uint / uintptr in the configuration analysed. It
+// governs which conversions keep their value (int(uint32) does not on a 32-bit
+// target); arithmetic on int is assumed not to wrap in either configuration.
+var IntBits = 64
+
 func typeRange(t types.Type) (lo, hi int64, hasLo, hasHi bool) {
 	b, ok := t.Underlying().(*types.Basic)
 	if !ok {
@@ -261,7 +359,9 @@ func fitsIn(src, dst types.Type) bool {
 			return 16, false
 		case types.Uint32:
 			return 32, false
-		case types.Uint, types.Uint64, types.Uintptr:
+		case types.Uint, types.Uintptr:
+			return IntBits, false
+		case types.Uint64:
 			return 64, false
 		case types.Int8:
 			return 8, true
@@ -269,7 +369,9 @@ func fitsIn(src, dst types.Type) bool {
 			return 16, true
 		case types.Int32:
 			return 32, true
-		case types.Int, types.Int64:
+		case types.Int:
+			return IntBits, true
+		case types.Int64:
 			return 64, true
 		case types.UntypedInt:
 			return 64, true
@@ -360,6 +462,19 @@ func (a *zoneAnalyser) canon(v ssa.Value) (int, int64, bool) {
 			}
 			if fv := a.forwarded(x); fv != nil && isIntType(x.Type()) {
 				return a.canon(fv)
+			}
+			if al, ok := x.X.(*ssa.Alloc); ok && isIntType(x.Type()) {
+				if si := a.zv.settledFor(al); si.ok && len(si.writers) > 0 {
+					all := true
+					for _, w := range si.writers {
+						if !instrBefore(w, x) {
+							all = false
+						}
+					}
+					if all {
+						return a.zv.id("settled:" + al.Name()), 0, true
+					}
+				}
 			}
 			// element of a slice value with a constant index, when nothing stores into that slice here
 			if ia, ok := x.X.(*ssa.IndexAddr); ok && isIntType(x.Type()) {
@@ -562,6 +677,9 @@ func (a *zoneAnalyser) defineLen(z *zone, v ssa.Value) int {
 	}
 	z.forget(i)
 	z.add(0, i, 0) // len >= 0
+	if IntBits == 32 {
+		z.add(i, 0, 1<<31-1) // len <= MaxInt
+	}
 	if n, ok := arrayLen(v.Type()); ok {
 		z.add(i, 0, n)
 		z.add(0, i, -n)
@@ -571,6 +689,31 @@ func (a *zoneAnalyser) defineLen(z *zone, v ssa.Value) int {
 
 // transfer applies one instruction.
 func (a *zoneAnalyser) transfer(z *zone, in ssa.Instruction) {
+	// settled locals change value where they are created and where they may be written
+	for al, si := range a.zv.settled {
+		if !si.ok {
+			continue
+		}
+		hit := in == ssa.Instruction(al)
+		for _, w := range si.writers {
+			if w == in {
+				hit = true
+			}
+		}
+		if hit {
+			if i, ok := a.zv.idx["settled:"+al.Name()]; ok {
+				z.forget(i)
+				if lo, hi, hasLo, hasHi := typeRange(Deref(al.Type())); hasLo || hasHi {
+					if hasLo {
+						z.add(0, i, -lo)
+					}
+					if hasHi {
+						z.add(i, 0, hi)
+					}
+				}
+			}
+		}
+	}
 	v, isVal := in.(ssa.Value)
 	if !isVal {
 		return
@@ -815,10 +958,16 @@ func (a *zoneAnalyser) transfer(z *zone, in ssa.Instruction) {
 			if !hasLo && !hasHi {
 				// to int / int64: fits when the source is known below 2^62
 				fits = okL && okH && h < 1<<62 && l > -(1<<62)
+				if db, ok := x.Type().Underlying().(*types.Basic); ok && db.Kind() == types.Int && IntBits == 32 {
+					fits = okL && okH && h <= 1<<31-1 && l >= -(1<<31)
+				}
 			}
 			if hasLo && !hasHi {
 				// to uint / uint64 from a signed source: fits when the source is known non-negative
 				fits = okL && l >= 0
+				if db, ok := x.Type().Underlying().(*types.Basic); ok && (db.Kind() == types.Uint || db.Kind() == types.Uintptr) && IntBits == 32 {
+					fits = okL && okH && l >= 0 && h <= 1<<32-1
+				}
 			}
 			if fits {
 				a.addRel(z, v, x.X, 0)
@@ -1387,6 +1536,9 @@ func ZoneAnalyse(fn *ssa.Function) *ZoneResult {
 	for i, name := range zv.names {
 		if strings.HasPrefix(name, "len(") {
 			init.add(0, i, 0)
+			if IntBits == 32 {
+				init.add(i, 0, 1<<31-1)
+			}
 		}
 	}
 	for _, prm := range fn.Params {
@@ -1412,7 +1564,7 @@ func ZoneAnalyse(fn *ssa.Function) *ZoneResult {
 	for _, b := range fn.Blocks {
 		for _, in := range b.Instrs {
 			if u, ok := in.(*ssa.UnOp); ok && u.Op == token.MUL && isIntType(u.Type()) {
-				if i, off, ok := an.canon(u); ok && off == 0 && i != 0 && (strings.HasPrefix(zv.names[i], "path:") || strings.HasPrefix(zv.names[i], "elem:")) {
+				if i, off, ok := an.canon(u); ok && off == 0 && i != 0 && (strings.HasPrefix(zv.names[i], "path:") || strings.HasPrefix(zv.names[i], "elem:") || strings.HasPrefix(zv.names[i], "settled:")) {
 					if lo, hi, hasLo, hasHi := typeRange(u.Type()); hasLo || hasHi {
 						if hasLo {
 							init.add(0, i, -lo)
